@@ -202,7 +202,12 @@ func (m *mcastEnv) expectReaders(n int, when string) {
 				when, c.MulticastReaderCount, c.MulticastWriters, m.nMedias, len(gs), 2*m.nMedias)
 		}
 		// the goroutine filter of the leak oracles sees all three kinds of goroutine of a multicast writer
+		// (a listener goroutine is recognised by the pkg/multicast frame of its blocked read: one that is between two
+		// reads - handing a datagram to its callback - is not in that frame for a moment, so the dump is repeated)
 		k := mcastWriterGoroutineKinds()
+		for lim := time.Now().Add(2 * time.Second); (k["listener"] < 2*m.nMedias || k["asyncprocessor"] < m.nMedias || k["rtpsender"] < m.nMedias) && time.Now().Before(lim); k = mcastWriterGoroutineKinds() {
+			time.Sleep(5 * time.Millisecond)
+		}
 		if k["listener"] < 2*m.nMedias || k["asyncprocessor"] < m.nMedias || k["rtpsender"] < m.nMedias {
 			m.once("harness-goroutine-filter-blind", "%s: with the multicast writers of %d medias allocated the filter 'created by the library' sees %v", when, m.nMedias, k)
 		}
